@@ -156,24 +156,45 @@ Proof.
   intros H Hq Hin Hr. eapply tclosed_mono_run; eauto. eapply close_queue_closes_all; eauto.
 Qed.
 
-(** *** full strength fails for a client that never subscribed (open finding 2):
-    Client.Close is then a no-op and the client can go on sending *)
-Definition close_call_closes_full : Prop :=
-  forall cp tr s c s1, run (init cp) tr = Some s ->
-    (step s (ECloseNoop c) = Some s1 \/ exists s0, step s (ECloseBegin c) = Some s0 /\ step s0 (ECloseEnd c) = Some s1) ->
-    forall o hi m r s3, step s1 (ESend c o hi m r) = Some s3 -> is_err r = true.
+(** *** a Close call that has returned leaves the client closed, whether or not it had
+    subscribed.  The call is [ECloseNoop] (already closed) or [ECloseBegin] ... [ECloseEnd]
+    with anything in between (the pump exits, other participants go on). *)
+Definition close_returned (s : state) (c : N) (s1 : state) : Prop :=
+  step s (ECloseNoop c) = Some s1
+  \/ exists s0 tr s0', step s (ECloseBegin c) = Some s0 /\ run s0 tr = Some s0' /\ step s0' (ECloseEnd c) = Some s1.
 
-Lemma close_call_closes_refuted : ~ close_call_closes_full.
+Lemma close_returned_closed s c s1 : close_returned s c s1 -> c_closed (gc s1 c) = true.
 Proof.
-  intros F.
-  specialize (F (mkCaps 2 2 5) [ENew 0 0 1] _ 0 _ eq_refl (or_introl eq_refl) 0 true MForever SOk).
-  specialize (F _ eq_refl). discriminate.
+  intros [H|(s0 & tr & s0' & _ & _ & H)].
+  - simpl in H. destruct (c_closed (gc s c)) eqn:E; [injection H as <-; exact E|discriminate].
+  - step_inv H; autorewrite with frame; rewrite N.eqb_refl; reflexivity.
 Qed.
 
-(* partial: the Close call of a client that has subscribed (its pump has exited) closes it *)
-Lemma close_call_closes_partial s c s0 s1 :
-  step s (ECloseBegin c) = Some s0 -> step s0 (ECloseEnd c) = Some s1 ->
-  c_closed (gc s1 c) = true.
+Definition close_call_closes_full : Prop :=
+  forall cp tr s c s1, run (init cp) tr = Some s -> close_returned s c s1 ->
+    forall tr2 s2, run s1 tr2 = Some s2 ->
+      (forall o hi m r s3, step s2 (ESend c o hi m r) = Some s3 -> is_err r = true)
+      /\ (forall p o hi m, step s2 (EBlock p c o hi m) = None).
+
+Lemma close_call_closes_proof : close_call_closes_full.
 Proof.
-  intros H0 H1. step_inv H1; autorewrite with frame; rewrite N.eqb_refl; reflexivity.
+  intros cp tr s c s1 _ Hc tr2 s2 Hr2.
+  pose proof (closed_mono_run _ _ _ c Hr2 (close_returned_closed _ _ _ Hc)) as Hc2.
+  split; intros; [eapply send_after_close|eapply block_after_close]; eauto.
+Qed.
+
+(* non-vacuity: a client that never subscribed (the case that used to fail: its Close did
+   nothing) is closed by its Close call; its next send fails, its next wait returns *)
+Lemma never_subscribed_close_runs :
+  exists s s1, run (init (mkCaps 2 2 5)) [ENew 0 0 1] = Some s
+    /\ c_pump (gc s 0) = PNone
+    /\ close_returned s 0 s1
+    /\ step s1 (ESend 0 0 true MForever SErrClient) = Some s1
+    /\ step s1 (ESend 0 0 true MForever SOk) = None
+    /\ step s1 (ERecvClosed 0) = Some s1
+    /\ (exists s2, step s1 (EWait 0 0 false WClient) = Some s2).
+Proof.
+  eexists _, _. split; [reflexivity|]. split; [reflexivity|]. split.
+  - right. eexists _, [], _. split; [vm_compute; reflexivity|]. split; [reflexivity|vm_compute; reflexivity].
+  - repeat split; try (vm_compute; reflexivity). eexists; vm_compute; reflexivity.
 Qed.
